@@ -191,6 +191,16 @@ Theorem C07_misuse_is_error :
   (forall l i v, (i < 0 \/ Z.of_nat (length l) <= i) -> m_set i v l = Err None).
 Proof. exact (conj wrong_arity_is_error (conj unknown_method_is_error (conj not_a_function_is_error (conj callback_arity_is_error_1 (conj callback_arity_is_error_2 (conj accept_wrong_result_is_error (conj indexWhere_wrong_result_is_error (conj top_skip_need_int (conj combineN_needs_positive (conj empty_reductions_are_errors set_out_of_range_is_error)))))))))). Qed.
 
+(* map.replace, any chain depth (reps = the replacement maps in order): keys, key order and size are
+   the receiver's; a key the receiver does not have stays absent whatever the replacements contain;
+   a key it has stays present *)
+Theorem C07_replace_absent_invisible : forall reps m,
+  let r := fold_left mm_replace_with reps m in
+  (map fst r = map fst m /\ length r = length m /\
+   forall k, assoc_v k m = None -> assoc_v k r = None) /\
+  (forall k, assoc_v k m <> None -> assoc_v k r <> None).
+Proof. exact (fun reps m => conj (replace_absent_invisible reps m) (replace_present reps m)). Qed.
+
 (* non-vacuity: a pipeline with a failing callback behind a truncating stage, and the repaired corners *)
 Example C07_nonvacuous_lazy :
   collect (s_top 1 (s_map (fun x => match x with VInt 1 => Ok x | _ => Err None end) (of_list [VInt 1; VInt 2])))
@@ -223,3 +233,4 @@ Print Assumptions C07_check_order_correct.
 Print Assumptions C07_check_groups_sound.
 Print Assumptions C07_string_specs.
 Print Assumptions C07_misuse_is_error.
+Print Assumptions C07_replace_absent_invisible.
